@@ -5,7 +5,7 @@ package main
 import (
 	"fmt"
 	"strings"
-	"time"
+	"unicode"
 	"unicode/utf8"
 
 	insaneJSON "github.com/ozontech/insane-json"
@@ -313,24 +313,7 @@ func (g *gen) roundCase() {
 				posCoq, posName = "PPlain", "plain"
 				q = "f:" + lit
 			case k < 8:
-				var before, after, bl, al []string
-				for i := 0; i < r.Intn(3); i++ {
-					l, sc := renderAny(genValue(r, ty), r)
-					_ = l
-					before = append(before, sc)
-					bl = append(bl, l)
-				}
-				for i := 0; i < r.Intn(3); i++ {
-					l, sc := renderAny(genValue(r, ty), r)
-					after = append(after, sc)
-					al = append(al, l)
-				}
-				// members are (style, value) pairs: re-render needs the values, so rebuild them here
 				posCoq, q = g.inPosition(ty, lit, r)
-				_ = before
-				_ = after
-				_ = bl
-				_ = al
 				posName = "in"
 			default:
 				if strings.EqualFold(lit, "to") {
@@ -443,42 +426,67 @@ var textFrags = []string{"f", "f", "f", "_exists_", "g", "F", "f*", "\"f\"", "'f
 	"\\ud800", "\\U0001F600", "\\U00110000", "\\101", "\\400", "\\8", "\\a", "\\'", "\\\"", "\\-", "\\/", "\\ ", "\\:", "é", "İ", "K", "�", "", "\xff", "\xc3", "\xe2\x82",
 	"\"a b\"", "'a'", "`a`", "\"\"", "''", "``", "\"a\\\"b\"", "\"a*b\"", "\"a\\*b\"", "a*b", "*a", "a*", "**", "and", "or", "ſ", "in(", "in (", "[a to b]", "(1, 2]"}
 
+var litFrags = []string{"a", "b", "ab", "Ab", "x1", "a-b", "a.b", "_", "-", "é", "İ", "K", "ſ", "*", "a*", "*a", "a*b", "\"a b\"", "'a'", "`a`", "\"\"", "''", "``",
+	"\"a\\\"b\"", "\"a*b\"", "\"a\\*b\"", "\"\\n\\t\"", "\"\\x41\\u00e9\"", "'\\U0001F600'", "\"\\101\"", "\"\\xZZ\"", "\"\\u12\"", "'it\\'s'", "\"a\"b", "`a`\"`\"`b`",
+	"\"(\"", "\"]\"", "\"a:b\"", "\"a|b\"", "\"\uFFFD\"", "\"\uE000\"", "\"\xff\"", "'\xc3'", "and", "to", "in", "\"and\"", "A_B.c-d"}
+
+func (g *gen) lit() string {
+	r := g.r
+	if r.Chance(1, 7) {
+		return rng.Pick(r, textFrags)
+	}
+	if r.Chance(1, 5) {
+		v := genEscapeValue(r, r.Range(0, 6))
+		return quote(v, pickStyle(v, r), r)
+	}
+	s := rng.Pick(r, litFrags)
+	if r.Chance(1, 8) {
+		s += rng.Pick(r, litFrags)
+	}
+	return s
+}
+
 func (g *gen) genText() string {
 	r := g.r
 	var sb strings.Builder
-	switch r.Intn(4) {
+	ok := func(good string, bad ...string) string {
+		if r.Chance(1, 8) {
+			return rng.Pick(r, bad)
+		}
+		return good
+	}
+	switch r.Intn(8) {
 	case 0: // any fragments
 		for i, n := 0, r.Range(1, 9); i < n; i++ {
 			sb.WriteString(rng.Pick(r, textFrags))
 		}
-	default: // field filter skeleton with broken pieces
-		sb.WriteString(rng.Pick(r, []string{"f", "f", "f", "_exists_", "g", " f", "f ", "\"f\"", "`f`"}))
-		sb.WriteString(rng.Pick(r, []string{":", ":", ":", ": ", " : ", ""}))
+	default: // field filter skeleton, mostly well formed
+		sb.WriteString(ok("f", "_exists_", "g", " f", "f ", "\"f\"", "`f`", "F", "f*", ""))
+		sb.WriteString(ok(":", ": ", " : ", "", "::"))
 		switch r.Intn(4) {
 		case 0:
-			sb.WriteString(rng.Pick(r, []string{"in(", "in (", "IN(", "in", "in("}))
-			for i, n := 0, r.Intn(4); i < n; i++ {
+			sb.WriteString(ok("in(", "in (", "IN(", "in", "In( "))
+			for i, n := 0, r.Range(0, 4); i < n; i++ {
 				if i > 0 {
-					sb.WriteString(rng.Pick(r, []string{",", ", ", " ,", " ", ",,"}))
+					sb.WriteString(ok(rng.Pick(r, []string{",", ", "}), " ,", " ", ",,", ""))
 				}
-				for j, m := 0, r.Range(1, 3); j < m; j++ {
-					sb.WriteString(rng.Pick(r, textFrags))
-				}
+				sb.WriteString(g.lit())
 			}
-			sb.WriteString(rng.Pick(r, []string{")", ")", ")", "", "]", ") "}))
+			sb.WriteString(ok(")", "", "]", ") ", "))"))
 		case 1:
-			sb.WriteString(rng.Pick(r, []string{"[", "(", "[ ", "{"}))
-			sb.WriteString(rng.Pick(r, textFrags))
-			sb.WriteString(rng.Pick(r, []string{" to ", " TO ", ", ", ",", " ", " To "}))
-			sb.WriteString(rng.Pick(r, textFrags))
-			sb.WriteString(rng.Pick(r, []string{"]", ")", "", "}", "] "}))
+			sb.WriteString(ok(rng.Pick(r, []string{"[", "("}), "[ ", "{", ""))
+			sb.WriteString(g.lit())
+			sb.WriteString(ok(rng.Pick(r, []string{" to ", " TO ", ", ", ","}), " ", " To ", "to", ""))
+			sb.WriteString(g.lit())
+			sb.WriteString(ok(rng.Pick(r, []string{"]", ")"}), "", "}", "] ", "]]"))
 		default:
-			for j, m := 0, r.Range(1, 4); j < m; j++ {
-				sb.WriteString(rng.Pick(r, textFrags))
+			sb.WriteString(g.lit())
+			if r.Chance(1, 6) {
+				sb.WriteString(rng.Pick(r, []string{" ", "", "\t", "\n# c"}) + g.lit())
 			}
 		}
-		if r.Chance(1, 6) {
-			sb.WriteString(rng.Pick(r, []string{" and f:a", " or f:b", " | fields f", ")", " x"}))
+		if r.Chance(1, 10) {
+			sb.WriteString(rng.Pick(r, []string{" and f:a", " or f:b", " | fields f", ")", " x", " ", "\n"}))
 		}
 	}
 	return sb.String()
@@ -486,13 +494,38 @@ func (g *gen) genText() string {
 
 func (g *gen) qtextCase() {
 	r := g.r
-	q := g.genText()
-	ty := rng.Pick(r, []seq.TokenizerType{seq.TokenizerTypeKeyword, seq.TokenizerTypeText, seq.TokenizerTypePath, seq.TokenizerTypeExists, seq.TokenizerTypeObject})
+	ty := rng.Pick(r, []seq.TokenizerType{seq.TokenizerTypeKeyword, seq.TokenizerTypeKeyword, seq.TokenizerTypeText, seq.TokenizerTypeText, seq.TokenizerTypePath})
+	if r.Chance(1, 12) {
+		ty = rng.Pick(r, []seq.TokenizerType{seq.TokenizerTypeExists, seq.TokenizerTypeObject})
+	}
 	sens := r.Chance(2, 5)
 	legacy := r.Chance(1, 3)
+	q := g.genText()
+	if legacy && r.Chance(3, 4) {
+		// the legacy grammar: field:term / field:"quoted term", escapes \" \\ \* in quotes, \<special> outside
+		var sb strings.Builder
+		sb.WriteString(rng.Pick(r, []string{"f", "f", "f", "f ", " f", "_exists_", "g", "F"}))
+		sb.WriteString(rng.Pick(r, []string{":", ":", ":", ": ", " :"}))
+		if r.Chance(1, 2) {
+			v := genEscapeValue(r, r.Range(0, 8))
+			l, _ := legacyQuote(v, r)
+			if r.Chance(1, 4) {
+				l = strings.Replace(l, "\\*", "*", 1)
+			}
+			sb.WriteString(l)
+		} else {
+			for i, n := 0, r.Range(1, 4); i < n; i++ {
+				sb.WriteString(rng.Pick(r, []string{"a", "b", "Ab", "x1", "é", "İ", "K", "*", "a*", "\\-", "\\/", "\\ ", "\\:", "\\*", "\\\\", "\\\"", "\\(", "-", "_", ".", "/", "\"a b\"", "\"a\\\"b\"", "\"\\q\"", "\\q", "\uFFFD", "\xff", "'", "`"}))
+			}
+		}
+		if r.Chance(1, 10) {
+			sb.WriteString(rng.Pick(r, []string{" ", " AND f:a", " x", ")", "\""}))
+		}
+		q = sb.String()
+	}
 	mapping := seq.Mapping{"f": seq.NewSingleType(ty, "", 0)}
 	field := "f"
-	if strings.Contains(q, "_exists_") {
+	if strings.HasPrefix(strings.TrimLeft(q, " "), "_exists_") {
 		field = "_exists_"
 	}
 	o := g.observe(legacy, q, field, mapping, sens)
@@ -619,7 +652,7 @@ func (g *gen) multiCase() {
 	}
 	wc, sw := false, false
 	for _, ru := range string(val) {
-		if l := toLowerRune(ru); l != ru {
+		if l := unicode.ToLower(ru); l != ru {
 			if utf8.RuneLen(l) != utf8.RuneLen(ru) {
 				wc = true
 			} else if ru >= 0x80 {
@@ -659,5 +692,4 @@ func (g *gen) extCases(tier string) {
 	for i := 0; i < nMulti; i++ {
 		g.multiCase()
 	}
-	_ = time.Now
 }
